@@ -10,9 +10,11 @@
   `WF` = the constraints the C++ `static_assert`s are meant to impose; `InDom p l` = `l` is an index tuple of `p`
   (`inDom_iff`: every index is below the extent of its dimension).
 
-  Known, deliberate difference model/code: `FixedSizeRowMajorMatrixIndexingPolicy::getUnderlyingArrayMinimalSize`
-  returns `(N-1)*Stride+N` when `Stride != M`; the model has `(N-1)*Stride+M`, the only value for which the
-  theorems below hold (`code_formula_not_in_range`). The correspondence reports the difference with a failing input.
+  Model vs code: the model's `minSize` of a row-major matrix policy with a non default stride is `(N-1)*Stride+M`,
+  the only value for which the theorems below hold. When this check was written the shipped
+  `FixedSizeRowMajorMatrixIndexingPolicy::getUnderlyingArrayMinimalSize` returned `(N-1)*Stride+N`
+  (`code_formula_not_in_range`); the correspondence of checks/C17.py evaluates "in range / injective / tight / both
+  getIndex overloads agree" on the implementation's own answers and reports any difference with a failing input.
 -/
 import TfelVerif.C17.Lemmas
 
